@@ -29,8 +29,8 @@ EXTENDS Rat, TLC, Json
 CONSTANTS Params,     \* set of parameter records
           RunSpecs    \* set of [start, dt, n] (start, dt rationals)
 
-VARIABLES P, rs, i, s1, s2, s3, s4, sm, av, hist, traj
-vars == <<P, rs, i, s1, s2, s3, s4, sm, av, hist, traj>>
+VARIABLES P, rs, i, s1, s2, s3, s4, sm, av, sm0, avx, hist, traj
+vars == <<P, rs, i, s1, s2, s3, s4, sm, av, sm0, avx, hist, traj>>
 
 None == <<0, 0>>
 T(k) == Add(rs.start, Mul(R(k), rs.dt))           \* grid time
@@ -47,6 +47,16 @@ Lookup(x, pts) ==
          IN Add(y0, Div(Mul(Sub(y1, y0), Sub(x, x0)), Sub(x1, x0)))
 
 \* value of every element at grid index k, given the stock-like state at k
+\* XMILE time built-ins over the same input c1 (beyond the listed properties; replayed by the extension check X01):
+\*   STEP(h, t0) switches at t >= t0;  RAMP(h, t0) = h*(t - t0) after t0;  DELAY(c1, dn*dt [, dinit]);  SMTH1(c1, T [, sinit])
+\*   (without initial value it starts at the input);  TREND(c1, T, xti) with the average initialised to c1/(1 + xti*T);
+\*   FORCST(c1, T, hz, xti) = c1*(1 + trend*hz);  PREVIOUS(c1, pinit);  INIT(c1);  PULSE(pv, first, interval)
+XRow(k, c1, vsm, vsm0, vavx, h, dlv, plv) ==
+    LET xtr == Div(Sub(c1, vavx), Mul(vavx, P.T)) IN
+    [xst |-> IF Le(P.t0, T(k)) THEN P.h ELSE R(0),
+     xrm |-> IF Lt(P.t0, T(k)) THEN Mul(P.h, Sub(T(k), P.t0)) ELSE R(0),
+     xdl |-> dlv, xsm |-> vsm, xsm0 |-> vsm0, xtr |-> xtr, xfc |-> Mul(c1, Add(R(1), Mul(xtr, P.hz))),
+     xpv |-> IF k = 0 THEN P.pinit ELSE h[k], xin |-> h[1], xpl |-> plv]
 Row(k, vs1, vs2, vs3, vs4, vsm, vav, h) ==
     LET c1 == C1(k)
         fout == Clamp(Mul(P.q, vs1))
@@ -61,6 +71,8 @@ Row(k, vs1, vs2, vs3, vs4, vsm, vav, h) ==
 
 Init == /\ P \in Params /\ rs \in RunSpecs /\ i = 0
         /\ s1 = P.s0 /\ s2 = R(0) /\ s3 = R(0) /\ s4 = R(0) /\ sm = P.sinit /\ av = P.tinit
+        /\ sm0 = Sub(Mul(P.a, rs.start), P.b)
+        /\ avx = Div(Sub(Mul(P.a, rs.start), P.b), Add(R(1), Mul(P.xti, P.T)))
         /\ hist = << Sub(Mul(P.a, rs.start), P.b) >>
         /\ traj = << >>
 
@@ -70,7 +82,9 @@ EulerStep ==
     /\ LET row == Row(i, s1, s2, s3, s4, sm, av, hist)
            net1 == Sub(Sub(row.fin, row.fout), row.fo2)
            net2 == Add(row.bf, row.fout)
-       IN /\ traj' = Append(traj, row)
+       IN /\ traj' = Append(traj, row @@ XRow(i, row.c1, sm, sm0, avx, hist, row.dl, row.pl))
+          /\ sm0' = Add(sm0, Mul(rs.dt, Div(Sub(row.c1, sm0), P.T)))
+          /\ avx' = Add(avx, Mul(rs.dt, Div(Sub(row.c1, avx), P.T)))
           /\ s1' = Add(s1, Mul(rs.dt, net1))
           /\ s2' = Add(s2, Mul(rs.dt, net2))
           /\ s3' = Add(s3, Mul(rs.dt, MaxR(row.c1, P.g)))
